@@ -601,6 +601,7 @@ func scanContentOne(p *Prog, r *Report, rule string, m mgrSpec, components []str
 		}
 		field := FN(m.Type + "." + m.Field)
 		found := map[string]bool{}
+		matched := map[*ssa.Call]bool{}
 		// the scan is a loop in the function (or an extracted helper), or a predicate handed to slices.ContainsFunc / IndexFunc
 		var sites []ssa.CallInstruction
 		forEachCall(fn, func(site ssa.CallInstruction) {
@@ -636,6 +637,7 @@ func scanContentOne(p *Prog, r *Report, rule string, m mgrSpec, components []str
 						want = Path(sv) + suffix
 					}
 					found[comp] = true
+					matched[c] = true
 					// the features themselves are compared: an attribute of them (the address) identifies less — two peers
 					// have equal client addresses as long as their device address is not known yet
 					whole := suffix == "" || comp != "ClientFeature" // local (server) features have complete, unique addresses
@@ -646,6 +648,59 @@ func scanContentOne(p *Prog, r *Report, rule string, m mgrSpec, components []str
 		for _, comp := range components {
 			if !found[comp] {
 				r.Fail(rule, fmt.Sprintf("%s|scan:%s", base, comp), p.Pos(fn.Pos()), "the scan deciding the insertion does not compare the existing entries' "+comp)
+			}
+		}
+		// the rejection depends on these comparisons only: a further conjunct (the same client, a type, a flag) lets
+		// a second entry in although the compared components already match an existing one
+		for c := range matched {
+			hdr := loopHeaderOf(c.Block())
+			if hdr == nil || c.Parent() != fn {
+				continue
+			}
+			for _, b := range fn.Blocks {
+				if loopHeaderOf(b) != hdr && !(hdr.Dominates(b) && b != hdr) {
+					continue
+				}
+				ret, isRet := b.Instrs[len(b.Instrs)-1].(*ssa.Return)
+				if !isRet || len(ret.Results) == 0 {
+					continue
+				}
+				last := ret.Results[len(ret.Results)-1]
+				if k, isK := last.(*ssa.Const); isK && k.IsNil() {
+					continue
+				}
+				// only returns reached through the comparison
+				through := false
+				var extra []string
+				for _, g := range Guards(b) {
+					ci, isI := g.Cond.(ssa.Instruction)
+					if !isI || !hdr.Dominates(ci.Block()) {
+						continue
+					}
+					if gc, isC := g.Cond.(*ssa.Call); isC && matched[gc] {
+						if g.Val {
+							through = true
+						}
+						continue
+					}
+					if bo, isB := g.Cond.(*ssa.BinOp); isB {
+						if lc, isL := bo.Y.(*ssa.Call); isL && builtinName(&lc.Call) == "len" {
+							continue // loop bound
+						}
+						if ph, isPh := bo.X.(*ssa.Phi); isPh && isInductionPhi(ph) {
+							continue
+						}
+					}
+					if ex, isEx := g.Cond.(*ssa.Extract); isEx {
+						if _, isNext := ex.Tuple.(*ssa.Next); isNext {
+							continue
+						}
+					}
+					extra = append(extra, Path(g.Cond)+" at "+p.InstrPos(g.If))
+				}
+				if through {
+					r.Check(rule, base+"|scan:rejects-on-these-alone", len(extra) == 0, p.InstrPos(ret), fmt.Sprintf("the request is rejected whenever the compared components match an existing entry; further conditions: %v", extra))
+				}
 			}
 		}
 	}
